@@ -1,1 +1,86 @@
-/-! STUB — property C03 is not built yet. -/
+import Martian.Lemmas.Proxy
+import Martian.Lemmas.ProxyTrace
+import Martian.Lemmas.ProxyState
+/-!
+C03 — Upstream failures become 502s or clean closes, never a desync.
+Proved for every connection script; the origin fault alphabet of the model is `fail` (refused,
+closed before a complete head, not HTTP: `RoundTrip` returns an error) and `trunc` (complete head,
+body cut: `res.Write` fails). "The proxy process never terminates" is outside the model (no Go
+panic inside `net/http` can be exhibited by it); it is supported by the junk-input stream of the
+harness only, and labelled so.
+-/
+namespace Martian.Props.C03
+open Martian.Proxy
+
+variable (sd : Bool) (base : Nat) (items : List Item)
+
+/-- A failure before a complete response head yields one complete 502 carrying a Warning, and it
+passes through the response modifier like any other response. -/
+theorem pre_head_failure_gives_502_with_warning_through_resmod (k : Nat) (s' : St) (rc : Bool) (rq : ReqB) (rs : ResB)
+    (h : at? sd base {} 0 items k = some (s', .x rc rq rs .fail))
+    (hq : rq = .pass ∨ rq = .err) (hs : rs ≠ .hijack) :
+    Ev.warnRt k ∈ runConn sd base items ∧ Ev.resmod k (base + k) 502 ∈ runConn sd base items ∧
+      Ev.write k 502 (rc || sd) true ∈ runConn sd base items := by
+  have hm := mem_run_of_at? sd base {} 0 [] items k s' _ h
+  rcases hq with rfl | rfl <;> cases rs <;> simp at hs <;>
+    refine ⟨hm _ ?_, hm _ ?_, hm _ ?_⟩ <;> simp [handleItem, handleX, pre, rqErr, rqSkip]
+
+/-- After such a 502 the same client connection goes on serving (unless somebody asked to close). -/
+theorem after_502_connection_serves_next (s : St) (i c : Nat) (rq : ReqB) (rs : ResB)
+    (hq : rq = .pass ∨ rq = .err) (hs : rs ≠ .hijack) :
+    (handleItem false s i c (.x false rq rs .fail)).2.isAgain = true := by
+  rw [again_iff_not_ends]
+  rcases hq with rfl | rfl <;> cases rs <;> simp at hs <;> simp [endsConn, rqSkip]
+
+/-- A failure after the head: what reaches the client is marked incomplete, and the connection is
+closed right after - the exchange ends the connection whatever else holds. -/
+theorem post_head_failure_is_incomplete_then_close (k : Nat) (s' : St) (rc : Bool) (rq : ReqB) (rs : ResB) (st : Nat)
+    (h : at? sd base {} 0 items k = some (s', .x rc rq rs (.trunc st)))
+    (hq : rq = .pass ∨ rq = .err) (hs : rs ≠ .hijack) :
+    Ev.write k st (rc || sd) false ∈ runConn sd base items ∧ endsConn sd (.x rc rq rs (.trunc st)) = true := by
+  have hm := mem_run_of_at? sd base {} 0 [] items k s' _ h
+  rcases hq with rfl | rfl <;> cases rs <;> simp at hs <;>
+    refine ⟨hm _ ?_, ?_⟩ <;> simp [handleItem, handleX, pre, rqErr, rqSkip, endsConn]
+
+/-- No request is read after an exchange that ends the connection; in particular bytes of a later
+response can never follow an incomplete one. (`k` ends the connection ⇒ nothing with a larger index
+is ever read.) -/
+theorem nothing_served_after_closing_exchange (k j : Nat) (s' : St) (it : Item)
+    (h : at? sd base {} 0 items k = some (s', it)) (he : endsConn sd it = true) (hj : k < j) :
+    countP (isRead j) (runConn sd base items) = 0 := by
+  unfold runConn
+  rw [count_run local_read]
+  suffices hs : ∀ (s : St) (i : Nat) (l : List Item), i ≤ k → at? sd base s i l k = some (s', it) →
+      at? sd base s i l j = none by
+    rw [hs {} 0 items (by omega) h]
+  intro s i l
+  induction l generalizing s i with
+  | nil => intros; rfl
+  | cons x rest ih =>
+    intro hik hk
+    simp only [at?] at hk ⊢
+    have hji : j ≠ i := by omega
+    simp only [hji, if_false]
+    by_cases hki : k = i
+    · subst hki
+      simp only [if_true, Option.some.injEq, Prod.mk.injEq] at hk
+      obtain ⟨rfl, rfl⟩ := hk
+      have hag := again_iff_not_ends sd s k (base + k) x
+      rw [he] at hag
+      cases hn : (handleItem sd s k (base + k) x).2 with
+      | again s2 => rw [hn] at hag; simp at hag
+      | close => rfl
+      | hijack => rfl
+    · simp only [hki, if_false] at hk
+      cases hn : (handleItem sd s i (base + i) x).2 with
+      | again s2 => simp only [hn] at hk ⊢; exact ih s2 (i + 1) (by omega) hk
+      | close => rfl
+      | hijack => rfl
+
+/-! Non-vacuity (tests). -/
+example : at? false 0 {} 0 [.x false .pass .pass .fail, .x false .pass .pass (.trunc 200),
+    .x false .pass .pass (.ok 200 false)] 1 = some ({}, .x false .pass .pass (.trunc 200)) := by decide
+example : countP (isRead 2) (runConn false 0 [.x false .pass .pass .fail, .x false .pass .pass (.trunc 200),
+    .x false .pass .pass (.ok 200 false)]) = 0 := by decide
+
+end Martian.Props.C03
